@@ -50,7 +50,7 @@ ASSUMPTIONS = [
     "sandbox sub-check needs unprivileged user namespaces; otherwise cases are labelled skipped_no_userns",
     "Bob runs inside the harness process; suspected violations are re-run with the real bob script before reporting",
 ]
-TIME_BUDGET = {"quick": 190, "thorough": 1700}
+TIME_BUDGET = {"quick": 175, "thorough": 1700}
 BATCH = 4
 
 # =======================================================================================
